@@ -84,13 +84,13 @@ theorem census_core (k : Counter) (h : List Int) (hc : isConstant h = false) : C
     omega
   | rychlik =>
     have gw := peaksGo_good _ rychlik_fn [] (pv true h)
-    have tt := (peaksGo_total (fun l m r => some ⟨max (scanMin m l) (scanMin m r), m, false⟩)
+    have tt := (peaksGo_total (fun l m r => some ⟨max (scanMin m l) (scanMinLe m r), m, false⟩)
       (by intro l m r c e; simp at e; subst e; rfl) [] (pv true h)).2.2 rfl
     refine ⟨fun c hcm => (by simpa using (gw c hcm).1), fun _ c hcm => (gw c hcm).2, ?_⟩
     simp only [Counter.exact, Counter.run, rychlik]
     rcases tt with t | t
     · simpa using t
-    · have : peaksGo (fun l m r => some (⟨max (scanMin m l) (scanMin m r), m, false⟩ : Cyc)) [] (pv true h) = [] := by
+    · have : peaksGo (fun l m r => some (⟨max (scanMin m l) (scanMinLe m r), m, false⟩ : Cyc)) [] (pv true h) = [] := by
         match hh : pv true h with
         | [] => simp [peaksGo]
         | [_] => simp [peaksGo]
